@@ -1,6 +1,7 @@
 package checks
 
 import (
+	"crypto/md5"
 	"encoding/binary"
 	"fmt"
 	"sort"
@@ -220,6 +221,11 @@ func c06Enum(c *mc.Ctx, yield func(c06Spec)) {
 				yield(c06Spec{bi, "field", m.Off + 3})
 			}
 		}
+		for mi, m := range b.msgs {
+			if m.Kind == "TG" {
+				yield(c06Spec{bi, "advname", mi}) // a VALID record with adversarial contents: long column names
+			}
+		}
 		for mi := range b.msgs {
 			yield(c06Spec{bi, "dup", mi})
 			if mi+1 < len(b.msgs) {
@@ -281,6 +287,19 @@ func c06Run(c *mc.Ctx, s c06Spec) {
 			binary.LittleEndian.PutUint64(m[s.Off:], uint64(v))
 			add(m, fmt.Sprintf("8-byte field at %d: %d -> %d", s.Off, cur, v))
 		}
+	case "advname":
+		m := b.msgs[s.Off]
+		for _, k := range []int{33, 127, 128, 200, 255} {
+			if nb := c06RenameFirstColumn(m.Body, k); nb != nil {
+				rec := []byte{0}
+				rec = binary.LittleEndian.AppendUint64(rec, uint64(len(nb)))
+				h := md5.New()
+				h.Write(rec[1:9])
+				h.Write(nb)
+				rec = append(append(rec, nb...), h.Sum(nil)...)
+				add(cat(orig[:m.Off], rec, orig[m.End:]), fmt.Sprintf("valid record of transaction at %d re-encoded with a %d-byte column name (length and checksum correct)", m.Off, k))
+			}
+		}
 	case "dup":
 		m := b.msgs[s.Off]
 		add(cat(orig[:m.End], orig[m.Off:m.End], orig[m.End:]), fmt.Sprintf("message %d (%s at %d) duplicated", s.Off, m.Kind, m.Off))
@@ -306,6 +325,37 @@ func c06Run(c *mc.Ctx, s c06Spec) {
 	if s.Off%97 == 0 && len(descs) > 0 {
 		c.Sample(map[string]any{"base": b.name, "kind": s.Kind, "mutants": len(mutants), "first": descs[0]})
 	}
+}
+
+// c06RenameFirstColumn re-encodes a serialized transaction group with the first column name of its first
+// write set replaced by a k-byte name (nil when the body does not parse).
+func c06RenameFirstColumn(body []byte, k int) (out []byte) {
+	defer func() {
+		if recover() != nil {
+			out = nil
+		}
+	}()
+	cur := 16
+	if binary.LittleEndian.Uint64(body[8:]) == 0 {
+		return nil
+	}
+	cur++ // record type
+	fpl := int(binary.LittleEndian.Uint16(body[cur:]))
+	cur += 2 + fpl
+	dl := int(binary.LittleEndian.Uint32(body[cur:]))
+	cur += 4 + 4 + 8 + 8 + dl
+	ns := int(body[cur])
+	if ns == 0 {
+		return nil
+	}
+	cur++
+	l := int(body[cur])
+	name := strings.Repeat("N", k)
+	out = append(out, body[:cur]...)
+	out = append(out, byte(k))
+	out = append(out, name...)
+	out = append(out, body[cur+1+l:]...)
+	return out
 }
 
 func c06FieldClass(b *c06Base, d int) string {
@@ -432,6 +482,10 @@ func c06Judge(c *mc.Ctx, b *c06Base, s c06Spec, mutant []byte, desc string) {
 		rec := string(b.wal[tg.recOff:tg.recEnd])
 		intact := strings.Contains(string(mutant), rec)
 		must := !tg.checkpoint && tg.recEnd <= d && tg.commitEnd > 0 && tg.commitEnd <= d
+		if s.Kind == "advname" {
+			// every record of this mutant is valid (correct length and checksum): all committed transactions must be applied
+			intact, must = true, !tg.checkpoint && tg.commitEnd > 0
+		}
 		if tg.checkpoint {
 			// already in the primary files: must stay visible whatever the log says
 			if !all {
